@@ -40,6 +40,11 @@ def _membership_quantifier(e: ast.expr) -> Optional[Tuple[str, str, str, bool]]:
             s = _const_set(elt.comparators[0])
             if s is not None:
                 return e.func.id, norm(g.iter), s, isinstance(elt.ops[0], ast.NotIn)
+        # x != a and x != b   /   x == a or x == b   /   not (...)  written out: the canonical membership form of the element
+        import re as _re
+        m = _re.match(r"^(notin|in)\((\w+);(\[.*\])\)$", canon(elt))
+        if m and m.group(2) == g.target.id:
+            return e.func.id, norm(g.iter), m.group(3), m.group(1) == "notin"
     return None
 
 
